@@ -281,6 +281,38 @@ func c05Run(w *W) {
 			w.Op("peer %s goes away", p.Name)
 			w.Fault("close")
 			p.ClosePeer()
+		case k == 9 && !raw && a%2 == 0 && len(ctxs) < 5:
+			// a context opened in the middle of the history (other contexts,
+			// the socket's own one included, may hold unanswered requests):
+			// it starts with no request of its own
+			nc, err := s.OpenContext()
+			if err != nil {
+				w.Failf("C05/open-context", "%s OpenContext: %v", kind, err)
+				return
+			}
+			_ = nc.SetOption(mangos.OptionRecvDeadline, 10*time.Millisecond)
+			_ = nc.SetOption(mangos.OptionSendDeadline, 10*time.Millisecond)
+			cx := &c5Ctx{idx: len(ctxs), c: nc}
+			ctxs = append(ctxs, cx)
+			w.Op("open context ctx%d", cx.idx)
+			w.Probe("context-opened-mid-history")
+			if a&4 != 0 {
+				m := mangos.NewMessage(8)
+				m.Body = append(m.Body, "re:none"...)
+				call := w.Do(fmt.Sprintf("ctx%d.SendMsg", cx.idx), func() (interface{}, error) { return nil, nc.SendMsg(m) })
+				call.Wait(50 * time.Millisecond)
+				w.Settle()
+				if !call.Returned() {
+					w.Failf("C18/late", "%s SendMsg with 10ms deadline still pending", kind)
+					return
+				}
+				w.Op("ctx%d Send re:none -> %v", cx.idx, errName(call.Err))
+				if call.Err != mangos.ErrProtoState {
+					w.Failf("C05/send-without-request", "%s: Send on a context that never received a request returned %v", kind, errName(call.Err))
+					return
+				}
+				m.Free()
+			}
 		case k == 9:
 			w.Sleep(time.Duration(1+a) * time.Millisecond)
 		}
